@@ -332,7 +332,7 @@ func c09(c *Ctx) {
 		seen := map[string]bool{}
 		for _, b := range ex.Blocks {
 			for _, in := range b.Instrs {
-				if bo, ok := in.(*ssa.BinOp); ok && bo.Op == token.EQL {
+				if bo, ok := in.(*ssa.BinOp); ok && isEqOrNeq(bo) {
 					if s, ok := cfgx.ConstString(bo.Y); ok && strings.HasSuffix(bo.Y.Type().String(), "ConnectionDetailType") {
 						seen[s] = true
 					}
